@@ -1,11 +1,489 @@
 import Driver.Json
+import OomdModel.Config
 
-/-! Driver glue for engine `parse` (stub: not built yet). -/
+/-! Driver glue for engine `parse` (C12).  Scenario + implementation trace in, verdict out.
+String-level kinds (`strs`, `cgroup`) and configuration-level kinds (`init`, `compile`, `load`,
+`dropin`).  `accepts`: the model (`OomdModel.Parse`, `OomdModel.Config`) reproduces what the real
+code reported.  `holds`: the clauses of C12 evaluated on the implementation's answer with the
+specification (`…Spec`) as oracle; a rejection is never a violation, an exception or crash always. -/
 namespace Driver.Parse
-open Lean
+open Lean OomdModel.Parse OomdModel.Config OomdModel.Generated
+
+/-! ## encodings shared with the harness -/
+
+def sortStrs (l : List String) : List String := (l.toArray.qsort (· < ·)).toList
+
+def fmtOf (k : ArgKind) : Fmt := if k == .float then binary32 else binary64
+
+/-- `fin:<neg>:<m>:<e>` (m odd) / `inf:<neg>` / `nan` of the value the format stores for a literal -/
+def encF (f : Fmt) (v : FVal) : String :=
+  match v with
+  | .nan => "nan"
+  | .inf neg => "inf:" ++ (if neg then "1" else "0")
+  | .fin neg m b e =>
+    let r := roundLit f.prec m b e
+    "fin:" ++ (if neg then "1" else "0") ++ ":" ++ toString r.1 ++ ":" ++ toString r.2
+
+def errName (e : StoErr) : String :=
+  match e with
+  | .invalidArgument => "E:invalid_argument"
+  | .outOfRange => "E:out_of_range"
+
+/-- raw `std::sto*`: `<pos>|<value>` -/
+def encSto {α : Type} (r : Except StoErr (α × Str)) (s : Str) (enc : α → String) : String :=
+  match r with
+  | .error e => errName e
+  | .ok (v, rest) => toString (s.length - rest.length) ++ "|" ++ enc v
+
+def relOf (p : OomdModel.Path.CgPath) : String := String.ofList (OomdModel.Path.relative p)
+
+def encVal (k : ArgKind) (v : Val) : Json :=
+  match v with
+  | .int i => Json.str (toString i)
+  | .flt f => Json.str (encF (fmtOf k) f)
+  | .bool b => Json.str (if b then "true" else "false")
+  | .str s => Json.str ("s:" ++ String.ofList s)
+  | .resource io => Json.str (if io then "io" else "memory")
+  | .cgroups l => mkStrs (sortStrs ((l.map relOf).eraseDups))
+
+def encRes (k : ArgKind) (r : Except StoErr Val) : String :=
+  match r with
+  | .error e => errName e
+  | .ok v => match encVal k v with | Json.str s => s | j => j.compress
+
+/-! ## string-level kinds -/
+
+def modelStr (s : Str) (total : Int) : List (String × String) :=
+  let a (k : ArgKind) := encRes k (parseArg k [] 0 s)
+  [ ("sz", match parseSize s with | some v => toString v | none => "R"),
+    ("sp", match parseSizeOrPercent s total with | some v => toString v | none => "R"),
+    ("ui", a .uint), ("vi", a .int), ("vl", a .int64), ("vd", a .double), ("vf", a .float),
+    ("vm", a .ms), ("vb", a .bool), ("vr", a .resource), ("vs", a .string),
+    ("si", encSto (stoi s) s (fun v => toString v)),
+    ("sl", encSto (stoll s) s (fun v => toString v)),
+    ("su", encSto (stoull s) s (fun v => toString v)),
+    ("sf", encSto (stof s) s (fun v => encF binary32 v)),
+    ("sd", encSto (stod s) s (fun v => encF binary64 v)),
+    ("sL", encSto (stold s) s (fun v => encF x87ext v)) ]
+
+def sizePieces (s : Str) : List Str :=
+  Spec.splitAfter isUnitCh (takeSign ((s.map Char.toLower).filter (fun c => !isSpace c))).2
+
+/-- every term keeps `mant * unit` below 2^64: there the `long double` arithmetic of the code is
+    exact and the comparison is an equality; elsewhere a difference of one byte per term is tolerated
+    and the input is counted (`inexact_domain`) -/
+def sizeExactDomain (s : Str) : Bool :=
+  (sizePieces s).all fun piece =>
+    let nu : Str × Nat :=
+      match piece.getLast? with
+      | some u => if isUnitCh u then (piece.dropLast, unitMult u) else (piece, 1)
+      | none => (piece, 1)
+    match Spec.floatNumeral? nu.1 with
+    | some (.fin _ m _ _) => m * nu.2 < 2 ^ 64
+    | _ => true
+
+def closeTo (a b : String) (tol : Nat) : Bool :=
+  match a.toInt?, b.toInt? with
+  | some x, some y => (x - y).natAbs ≤ tol
+  | _, _ => false
+
+def implMatches (k : ArgKind) (v : Val) (impl : Json) : Bool := encVal k v == impl
+
+def holdsField (field : String) (s : Str) (total : Int) (impl : String) : Option String :=
+  if impl.startsWith "X:" then some "escape"
+  else if impl == "R" || impl.startsWith "E:" then none
+  else
+    let tol := if sizeExactDomain s then 0 else (sizePieces s).length
+    let specInt (o : Option Int) : Option String :=
+      match o with
+      | none => some "invalid-accepted"
+      | some v => if impl == toString v || (tol > 0 && closeTo impl (toString v) tol) then none else some "wrong-value"
+    let specVal (k : ArgKind) : Option String :=
+      match Spec.validReading k [] 0 s with
+      | none => some "invalid-accepted"
+      | some v => if implMatches k v (Json.str impl) then none else some "wrong-value"
+    match field with
+    | "sz" => specInt (Spec.validSize s)
+    | "sp" => specInt (Spec.validSizeOrPercent s total)
+    | "ui" => specVal .uint
+    | "vi" => specVal .int
+    | "vl" => specVal .int64
+    | "vd" => specVal .double
+    | "vf" => specVal .float
+    | "vm" => specVal .ms
+    | "vb" => specVal .bool
+    | "vr" => specVal .resource
+    | "vs" => specVal .string
+    | _ => none
+
+def propFields : List String := ["sz", "sp", "ui", "vi", "vl", "vd", "vf", "vm", "vb", "vr", "vs"]
+
+def handleStrs (sc tr : Json) : Json :=
+  let id := jstr sc "id"
+  let total : Int := (jstr sc "total").toInt?.getD 0
+  let ss := jstrs sc "ss"
+  let rs := jarr tr "rs"
+  let pairs := ss.zip rs
+  let diffs := pairs.flatMap fun (str, r) =>
+    let s := str.toList
+    let tol := if sizeExactDomain s then 0 else (sizePieces s).length
+    (modelStr s total).filterMap fun (f, m) =>
+      let i := jstr r f
+      if i == m then none
+      else if tol > 0 && (f == "sz" || f == "sp") && closeTo i m tol then none
+      else some (Json.mkObj [("s", Json.str str), ("f", Json.str f), ("model", Json.str m), ("impl", Json.str i)])
+  let viols := pairs.flatMap fun (str, r) =>
+    propFields.filterMap fun f =>
+      match holdsField f str.toList total (jstr r f) with
+      | some why => some (str, f, why)
+      | none => none
+  let inexact := (ss.filter fun str => !sizeExactDomain str.toList).length
+  let missing := rs.length != ss.length
+  let cls := match viols with
+    | (_, f, why) :: _ => f ++ ":" ++ why
+    | [] => ""
+  verdict id (diffs.isEmpty && !missing) viols.isEmpty ((viols.map fun (_, f, why) => f ++ ":" ++ why).eraseDups) cls
+    [("diff", Json.arr (diffs.take 8).toArray),
+     ("bad", Json.arr ((viols.take 8).map fun (s, f, why) => Json.mkObj [("s", Json.str s), ("f", Json.str f), ("why", Json.str why)]).toArray),
+     ("inexact_domain", (inexact : Nat))]
+
+def handleCgroup (sc tr : Json) : Json :=
+  let id := jstr sc "id"
+  let fs := (jstr sc "fs").toList
+  let s := (jstr sc "s").toList
+  let model := sortStrs ((parseCgroup fs s).map relOf).eraseDups
+  let impl := sortStrs (jstrs tr "paths")
+  -- independent reading: the comma separated non-empty pieces, each canonicalised as a cgroup path
+  let spec := sortStrs ((((jstr sc "s").splitOn ",").filter (· ≠ "")).map
+    (fun c => "/".intercalate ((c.splitOn "/").filter (· ≠ "")))).eraseDups
+  let ok := jstr tr "r" == "ok"
+  let v := (if ok && impl != spec then ["cgroup:wrong-value"] else []) ++ (if ok && !jbool tr "fs_ok" then ["cgroup:fs"] else [])
+    ++ (if !ok then ["cgroup:escape"] else [])
+  verdict id (ok && model == impl) v.isEmpty v (v.headD "") [("model", mkStrs model)]
+
+/-! ## configuration-level kinds -/
+
+def objList (j : Json) : List (String × Json) :=
+  match j with
+  | Json.obj kvs => (kvs.foldl (init := []) fun acc k v => (k, v) :: acc).reverse
+  | _ => []
+
+def strMap (j : Json) : List (Str × Str) := (objList j).map fun (k, v) => (k.toList, (asStr v).toList)
+
+def envOf (sc tr : Json) : Env :=
+  let mem : Int := ((jstr sc "memtotal_kb").toInt?.getD 16000000) * 1024
+  let swap : Int := ((jstr sc "swaptotal_kb").toInt?.getD 2000000) * 1024
+  let bad := jbool sc "meminfo_missing"
+  { fs := "/sys/fs/cgroup".toList
+    memTotal := if bad then none else some mem
+    swapTotal := if bad then none else some swap
+    hostMemTotal := (jstr tr "host_memtotal").toInt?
+    hostSwapTotal := (jstr tr "host_swaptotal").toInt? }
+
+def irPluginOf (j : Json) : IRPlugin := ⟨(jstr j "name").toList, strMap (jobj j "args")⟩
+
+def irOf (j : Json) : IRRoot :=
+  { rulesets := (jarr j "rulesets").map fun r =>
+      { name := (jstr r "name").toList
+        dgs := (jarr r "dgs").map fun g => ⟨(jstr g "name").toList, (jarr g "detectors").map irPluginOf⟩
+        acts := (jarr r "acts").map irPluginOf
+        disableOnDropIn := jbool (jobj r "dropin") "disable_on_drop_in"
+        detectorgroupsEnabled := jbool (jobj r "dropin") "detectorgroups_enabled"
+        actiongroupEnabled := jbool (jobj r "dropin") "actiongroup_enabled"
+        silenceLogs := (jstr r "silence_logs").toList
+        postActionDelay := (jstr r "post_action_delay").toList
+        prekillHookTimeout := (jstr r "prekill_hook_timeout").toList
+        xattrFilter := (jstr r "xattr_filter").toList
+        cgroup := (jstr r "cgroup").toList }
+    prekillHooks := (jarr j "prekill_hooks").map irPluginOf }
+
+/-- the arguments handed to the plugin are the given ones (the scratch path of the meminfo file,
+    which the harness substitutes, is compared by key only) -/
+def sameArgs (a : List (Str × Str)) (j : Json) : Bool :=
+  let m := sortStrs (a.map fun kv => String.ofList kv.1 ++ "=" ++ (if kv.1 == "meminfo_location".toList then "" else String.ofList kv.2))
+  let i := sortStrs ((objList j).map fun (k, v) => k ++ "=" ++ (if k == "meminfo_location" then "" else asStr v))
+  m == i
+
+def kindOf (table : List TypedSchema) (hook : Bool) (plugin : Str) (arg : Str) : ArgKind :=
+  match schemaOf table hook plugin with
+  | none => .unknown
+  | some sch =>
+    if arg == "threshold_anon".toList then .sizepct
+    else match sch.args.find? (fun a => a.name.toList == arg) with
+      | some a => a.kind
+      | none => .unknown
+
+/-- model instance vs the dump of the real instance -/
+def instAgrees (hook : Bool) (m : PluginInst) (impl : Json) : Bool :=
+  jstr impl "name" == String.ofList m.name &&
+  (hook || sameArgs m.args (jobj impl "args")) &&
+  m.vals.all fun (k, v) => implMatches (kindOf typedSchemas hook m.name k) v (jobj (jobj impl "vals") (String.ofList k))
+
+def listAgrees {α : Type} (f : α → Json → Bool) (ms : List α) (is : List Json) : Bool :=
+  ms.length == is.length && (ms.zip is).all fun (m, i) => f m i
+
+def rulesetAgrees (m : RulesetC) (i : Json) : Bool :=
+  jstr i "name" == String.ofList m.name &&
+  listAgrees (fun (g : DetectorGroupC) j => jstr j "name" == String.ofList g.name &&
+      listAgrees (instAgrees false) g.detectors (jarr j "detectors")) m.dgs (jarr i "dgs") &&
+  listAgrees (instAgrees false) m.acts (jarr i "acts") &&
+  jstr i "post_action_delay" == toString m.postActionDelay &&
+  jstr i "prekill_hook_timeout" == toString m.prekillHookTimeout &&
+  jbool i "disable_on_drop_in" == m.disableOnDropIn && jbool i "dg_dropin" == m.dgDropIn &&
+  jbool i "act_dropin" == m.actDropIn && jnat i "silenced_logs" == m.silenced &&
+  jstr i "xattr_filter" == String.ofList m.xattrFilter &&
+  (match m.cgroup with
+   | none => isNull (jobj i "cgroup")
+   | some p => jobj i "cgroup" == Json.str (relOf p))
+
+def hookAgrees (m : PluginInst) (i : Json) : Bool :=
+  jstr i "name" == String.ofList m.name &&
+  m.vals.all fun (k, v) => implMatches .cgroup v (jobj i (String.ofList k))
+
+def engineAgrees (m : EngineC) (i : Json) : Bool :=
+  listAgrees rulesetAgrees m.rulesets (jarr i "rulesets") && listAgrees hookAgrees m.hooks (jarr i "hooks")
+
+/-! ### property clauses on what the implementation did -/
+
+/-- an accepted plugin: valid per the pinned table, instantiated under its name with precisely the
+    given arguments, each read argument holding its valid reading -/
+def pluginViol (env : Env) (hook : Bool) (p : IRPlugin) (impl : Json) : List String :=
+  (if Spec.pluginValid env hook p then [] else ["invalid-plugin-accepted:" ++ String.ofList p.name]) ++
+  (if jstr impl "name" == String.ofList p.name then [] else ["plugin-order"]) ++
+  (if hook || sameArgs p.args (jobj impl "args") then [] else ["args-not-as-given"]) ++
+  ((Spec.expectedVals env hook p).filterMap fun (k, ov) =>
+    let got := if hook then jobj impl (String.ofList k) else jobj (jobj impl "vals") (String.ofList k)
+    match ov with
+    | none => none                      -- already reported as invalid
+    | some v =>
+      -- a dump of the real instance exists only for plugin classes the harness knows
+      if isNull got then none
+      else if implMatches (kindOf Spec.declaredSchemas hook p.name k) v got then none
+      else some ("value-not-honoured:" ++ String.ofList p.name ++ "." ++ String.ofList k))
+
+def zipViol {α : Type} (what : String) (f : α → Json → List String) (xs : List α) (js : List Json) : List String :=
+  (if xs.length == js.length then [] else [what ++ "-count"]) ++ (xs.zip js).flatMap fun (x, j) => f x j
+
+def rulesetViol (env : Env) (r : IRRuleset) (i : Json) : List String :=
+  (if r.name.isEmpty then ["unnamed-ruleset-accepted"] else []) ++
+  (if jstr i "name" == String.ofList r.name then [] else ["ruleset-order"]) ++
+  (if Spec.delayValid r.postActionDelay && Spec.delayValid r.prekillHookTimeout then [] else ["invalid-delay-accepted"]) ++
+  (match Spec.inRange 0 (2 ^ 31) (Spec.intNumeral? r.postActionDelay) with
+   | some v => if jstr i "post_action_delay" == toString v then [] else ["delay-not-honoured"]
+   | none => []) ++
+  (match Spec.inRange 0 (2 ^ 31) (Spec.intNumeral? r.prekillHookTimeout) with
+   | some v => if jstr i "prekill_hook_timeout" == toString v then [] else ["delay-not-honoured"]
+   | none => []) ++
+  zipViol "detectorgroup" (fun (g : IRDetectorGroup) j =>
+      (if g.name.isEmpty then ["unnamed-group-accepted"] else []) ++
+      (if jstr j "name" == String.ofList g.name then [] else ["group-order"]) ++
+      zipViol "detector" (pluginViol env false) g.detectors (jarr j "detectors")) r.dgs (jarr i "dgs") ++
+  zipViol "action" (pluginViol env false) r.acts (jarr i "acts")
+
+def engineViol (env : Env) (ir : IRRoot) (i : Json) : List String :=
+  zipViol "ruleset" (rulesetViol env) ir.rulesets (jarr i "rulesets") ++
+  zipViol "hook" (pluginViol env true) ir.prekillHooks (jarr i "hooks")
+
+def isEscape (r : String) : Bool := r.startsWith "uncaught"
+
+def classOf (viol : List String) : String :=
+  match viol with
+  | v :: _ => (v.splitOn ":").headD v
+  | [] => ""
+
+def handleInit (sc tr : Json) : Json :=
+  let id := jstr sc "id"
+  let hook := jbool sc "hook"
+  let p : IRPlugin := ⟨(jstr sc "plugin").toList, strMap (jobj sc "args")⟩
+  let env := envOf sc tr
+  let r := jstr tr "r"
+  let implAcc := r == "accepted"
+  let m := compilePlugin env hook p
+  let implJ := Json.mkObj [("name", Json.str (jstr sc "plugin")), ("args", jobj sc "args"), ("vals", jobj tr "vals")]
+  let implH := match jobj tr "vals" with | Json.obj kvs => Json.obj (kvs.insert "name" (Json.str (jstr sc "plugin"))) | j => j
+  let acc := !isEscape r && (match m with
+    | some inst => implAcc && instAgrees hook inst (if hook then Json.mkObj [("name", Json.str (jstr sc "plugin")), ("vals", jobj tr "vals")] else implJ)
+    | none => !implAcc)
+  let viol := (if isEscape r then ["escape:" ++ r] else []) ++
+    (if implAcc then pluginViol env hook p (if hook then implH else implJ) else [])
+  verdict id acc viol.isEmpty viol (classOf viol)
+    [("model", Json.str (match m with | some _ => "accepted" | none => "rejected"))]
+
+def handleCompile (sc tr : Json) : Json :=
+  let id := jstr sc "id"
+  let ir := irOf (jobj sc "ir")
+  let env := envOf sc tr
+  let r := jstr tr "r"
+  let m := compile env ir
+  let acc := !isEscape r && (match m with
+    | .ok e => r == "accepted" && engineAgrees e (jobj tr "engine")
+    | .rejected => r == "rejected"
+    | .throws _ => false)
+  let viol := (if isEscape r then ["escape:" ++ r] else []) ++
+    (if r == "accepted" then engineViol env ir (jobj tr "engine") else [])
+  verdict id acc viol.isEmpty viol (classOf viol)
+    [("model", Json.str (match m with | .ok _ => "accepted" | .rejected => "rejected" | .throws _ => "throws"))]
+
+instance : Inhabited JVal := ⟨JVal.null⟩
+
+/-- JSON value tree of the scenario (built by Python's json from the same text) -/
+partial def jvalOf (j : Json) : JVal :=
+  match j with
+  | Json.null => .null
+  | Json.bool b => .bool b
+  | Json.num n => .int (if n.exponent == 0 then n.mantissa else 0)
+  | Json.str s => .str s.toList
+  | Json.arr a => .arr (a.toList.map jvalOf)
+  | Json.obj kvs => .obj ((kvs.foldl (init := []) fun acc k v => (k.toList, jvalOf v) :: acc).reverse)
+
+def irToJson (r : IRRoot) : Json :=
+  let pl (p : IRPlugin) : Json := Json.mkObj [("name", Json.str (String.ofList p.name)),
+    ("args", Json.mkObj (p.args.map fun kv => (String.ofList kv.1, Json.str (String.ofList kv.2))))]
+  Json.mkObj [
+    ("rulesets", Json.arr (r.rulesets.map fun rs => Json.mkObj [
+      ("name", Json.str (String.ofList rs.name)),
+      ("dgs", Json.arr (rs.dgs.map fun g => Json.mkObj [("name", Json.str (String.ofList g.name)),
+        ("detectors", Json.arr (g.detectors.map pl).toArray)]).toArray),
+      ("acts", Json.arr (rs.acts.map pl).toArray),
+      ("dropin", Json.mkObj [("disable_on_drop_in", Json.bool rs.disableOnDropIn),
+        ("detectorgroups_enabled", Json.bool rs.detectorgroupsEnabled),
+        ("actiongroup_enabled", Json.bool rs.actiongroupEnabled)]),
+      ("silence_logs", Json.str (String.ofList rs.silenceLogs)),
+      ("post_action_delay", Json.str (String.ofList rs.postActionDelay)),
+      ("prekill_hook_timeout", Json.str (String.ofList rs.prekillHookTimeout)),
+      ("xattr_filter", Json.str (String.ofList rs.xattrFilter)),
+      ("cgroup", Json.str (String.ofList rs.cgroup))]).toArray),
+    ("prekill_hooks", Json.arr (r.prekillHooks.map pl).toArray)]
+
+/-- "precisely the given arguments", read off the document itself: at every plugin position of the
+    grammar, an `args` member that is present must be an object of strings / numbers / bools, and
+    the IR must carry exactly these.  `none`: the document gives arguments the IR cannot carry. -/
+def docArgs (pj : Json) : Option (List String) :=
+  match pj with
+  | Json.obj _ =>
+    match jobj pj "args" with
+    | Json.null => some []
+    | Json.obj kvs =>
+      if kvs.all (fun _ v => match v with | Json.str _ | Json.num _ | Json.bool _ => true | _ => false)
+      then some ((objList (jobj pj "args")).map (·.1)) else none
+    | _ => none
+  | _ => some []
+
+def elemsOf (j : Json) : List Json :=
+  match j with
+  | Json.arr a => a.toList
+  | Json.obj _ => (objList j).map (·.2)
+  | _ => []
+
+/-- plugin documents in IR order: per ruleset detectors (group by group) then actions; then hooks -/
+def docPlugins (tree : Json) : List (List Json) × List Json :=
+  ((elemsOf (jobj tree "rulesets")).map fun r =>
+      ((elemsOf (jobj r "detectors")).flatMap fun g =>
+        match g with
+        | Json.arr a => (match a.toList with | Json.str _ :: rest => rest | l => l)
+        | _ => []) ++ elemsOf (jobj r "actions"),
+   elemsOf (jobj tree "prekill_hooks"))
+
+def irPluginsJson (ir : Json) : List (List Json) × List Json :=
+  ((jarr ir "rulesets").map fun r => ((jarr r "dgs").flatMap fun g => jarr g "detectors") ++ jarr r "acts",
+   jarr ir "prekill_hooks")
+
+def argsKept (tree irj : Json) : List String :=
+  let d := docPlugins tree
+  let i := irPluginsJson irj
+  let one (dp ip : Json) : List String :=
+    match docArgs dp with
+    | none => ["args-dropped"]
+    | some ks => if sortStrs ks == sortStrs ((objList (jobj ip "args")).map (·.1)) then [] else ["args-dropped"]
+  let lists (ds is : List Json) : List String :=
+    if ds.length != is.length then ["plugin-count"] else (ds.zip is).flatMap fun (a, b) => one a b
+  (if d.1.length != i.1.length then ["ruleset-count"] else (d.1.zip i.1).flatMap fun (a, b) => lists a b) ++ lists d.2 i.2
+
+def docOf (sc tr : Json) (treeKey parseKey : String) : Option (Option JVal) :=
+  -- jsoncpp's verdict on the syntax is taken from the harness; the tree from the scenario
+  if (jstr tr parseKey).startsWith "E:std::runtime_error" then some none
+  else if jhas sc treeKey then some (some (jvalOf (jobj sc treeKey)))
+  else none
+
+def handleLoad (sc tr : Json) : Json :=
+  let id := jstr sc "id"
+  let env := envOf sc tr
+  let r := jstr tr "r"
+  let esc := isEscape r
+  match docOf sc tr "tree" "parse" with
+  | none =>
+    -- a text Python cannot read but jsoncpp can: outside the model, only "no escape" is checked
+    verdict id true (!esc) (if esc then ["escape:" ++ r] else []) (if esc then "escape" else "") [("model", Json.str "unmodelled-syntax")]
+  | some doc =>
+    let pj := (parseJson doc).catchAll
+    let m := load env doc
+    let irAgree := match pj with
+      | .ok ir => !jhas tr "ir" || irToJson ir == jobj tr "ir"
+      | _ => !jhas tr "ir"
+    let acc := !esc && irAgree && (match m with
+      | .ok e => r == "accepted" && engineAgrees e (jobj tr "engine")
+      | .rejected => r == "rejected"
+      | .throws _ => false)
+    let viol := (if esc then ["escape:" ++ r] else []) ++
+      (if r == "accepted" then
+        engineViol env (irOf (jobj tr "ir")) (jobj tr "engine") ++
+        (if jhas sc "tree" then argsKept (jobj sc "tree") (jobj tr "ir") else [])
+       else [])
+    verdict id acc viol.isEmpty viol (classOf viol)
+      [("model", Json.str (match m with | .ok _ => "accepted" | .rejected => "rejected" | .throws _ => "throws")),
+       ("ir_agree", Json.bool irAgree)]
+
+def dropinRulesetsOf (engine : Json) : List Json :=
+  (jarr engine "rulesets").flatMap fun r => jarr r "dropins"
+
+def handleDropIn (sc tr : Json) : Json :=
+  let id := jstr sc "id"
+  let env := envOf sc tr
+  let r := jstr tr "r"
+  let esc := isEscape r
+  if r == "base-rejected" then
+    -- the base configuration of the scenario did not load: nothing to observe
+    verdict id true true [] "" [("model", Json.str "base-rejected")]
+  else
+  let base : Option IRRoot :=
+    match (parseJson (some (jvalOf (jobj sc "base_tree")))).catchAll with
+    | .ok ir => some ir
+    | _ => none
+  match base, docOf sc tr "dropin_tree" "dropin_parse" with
+  | some root, some doc =>
+    let m := loadDropIn env root doc
+    let implDrop := dropinRulesetsOf (jobj tr "engine")
+    let acc := !esc && (match m with
+      | .ok u => r == "accepted" && (u.rulesets.isEmpty || listAgrees rulesetAgrees u.rulesets implDrop)
+      | .rejected => r == "rejected"
+      | .throws _ => false)
+    let viol := (if esc then ["escape:" ++ r] else []) ++
+      (if r == "rejected" && !jbool tr "engine_unchanged" then ["rejected-dropin-changed-engine"] else []) ++
+      (if r == "accepted" && jhas tr "dropin_ir" then
+        let dir := irOf (jobj tr "dropin_ir")
+        -- every drop-in ruleset targets a base ruleset and is valid; the merged plugins are the drop-in's
+        dir.rulesets.flatMap (fun d =>
+          (if root.rulesets.any (fun b => b.name == d.name) then [] else ["dropin-without-target-accepted"]) ++
+          (if Spec.rulesetValid env d then [] else ["invalid-dropin-accepted"])) ++
+        (if dir.prekillHooks.all (Spec.pluginValid env true) then [] else ["invalid-dropin-accepted"]) ++
+        (if jhas sc "dropin_tree" then argsKept (jobj sc "dropin_tree") (jobj tr "dropin_ir") else [])
+       else [])
+    verdict id acc viol.isEmpty viol (classOf viol)
+      [("model", Json.str (match m with | .ok _ => "accepted" | .rejected => "rejected" | .throws _ => "throws"))]
+  | _, _ =>
+    verdict id true (!esc) (if esc then ["escape:" ++ r] else []) (if esc then "escape" else "") [("model", Json.str "unmodelled")]
 
 def handle (j : Json) : Json :=
-  Json.mkObj [("id", Json.str (jstr (jobj j "s") "id")), ("error", Json.str "engine parse not implemented")]
+  let sc := jobj j "s"
+  let tr := jobj j "t"
+  match jstr sc "kind" with
+  | "strs" => handleStrs sc tr
+  | "cgroup" => handleCgroup sc tr
+  | "init" => handleInit sc tr
+  | "compile" => handleCompile sc tr
+  | "load" => handleLoad sc tr
+  | "dropin" => handleDropIn sc tr
+  | k => Json.mkObj [("id", Json.str (jstr sc "id")), ("error", Json.str s!"unknown kind {k}")]
 
 end Driver.Parse
 
